@@ -260,3 +260,61 @@ theorem diff_adjoint' (n : Nat) (x y : Vec C) :
     have : i + 2 - 1 = i + 1 := by omega
     rw [this]
 end C06L
+namespace C06L
+variable {C : Type} [Field C] (conj : C →+* C) (hc : ∀ a, conj (conj a) = a)
+
+/-- multiplication by a self-conjugate (real) scalar is self-adjoint -/
+theorem ip2_scale (m n : Nat) (c : C) (hcc : conj c = c) (x y : Mat C) :
+    ip2 conj m n y (fun i j => c * x i j) = ip2 conj m n (fun i j => c * y i j) x := by
+  simp only [ip2, sumTo_eq, map_mul, hcc]
+  refine Finset.sum_congr rfl fun i _ => Finset.sum_congr rfl fun j _ => ?_
+  ring
+
+include hc in
+theorem ip2_conj_symm (m n : Nat) (a b : Mat C) : conj (ip2 conj m n a b) = ip2 conj m n b a := by
+  simp only [ip2, sumTo_eq, map_sum, map_mul, hc]
+  refine Finset.sum_congr rfl fun i _ => Finset.sum_congr rfl fun j _ => ?_
+  ring
+
+include hc in
+/-- `⟨y, crop X⟩ = ⟨pad y, X⟩` -/
+theorem crop2_pad2_adjoint (m n M N : Nat) (oy ox : Int) (hy0 : 0 ≤ oy) (hy1 : oy + m ≤ M)
+    (hx0 : 0 ≤ ox) (hx1 : ox + n ≤ N) (X y : Mat C) :
+    ip2 conj m n y (crop2 oy ox X) = ip2 conj M N (pad2 m n oy ox y) X := by
+  rw [← ip2_conj_symm conj hc m n (crop2 oy ox X) y, ← pad2_crop2_adjoint conj m n M N oy ox hy0 hy1 hx0 hx1 y X,
+    ip2_conj_symm conj hc]
+
+include hc in
+/-- the whole `DM.render` chain (padding geometry) and `render_backprop` are adjoint -/
+theorem dm_pad_adjoint (ky kx loy sty lox stx m n M N : Nat) (oy ox : Int)
+    (hy0 : 0 ≤ oy) (hy1 : oy + m ≤ M) (hx0 : 0 ≤ ox) (hx1 : ox + n ≤ N)
+    (hsy : 0 < sty) (hsx : 0 < stx) (hly : loy + (ky - 1) * sty < m ∨ ky = 0) (hlx : lox + (kx - 1) * stx < n ∨ kx = 0)
+    (F1 F2 G1 G2 H : Mat C) (c1 c2 c : C)
+    (h1 : ∀ i j, G1 i j = c1 * conj (F1 j i)) (h2 : ∀ i j, G2 i j = c2 * conj (F2 j i))
+    (hc1 : conj c1 = c1) (hc2 : conj c2 = c2) (hcc : conj c = c) (a y : Mat C) :
+    ip2 conj M N y (dmRenderPad ky kx loy sty lox stx m n oy ox F1 F2 G1 G2 H c a)
+      = ip2 conj ky kx (dmBackPad conj loy sty lox stx m n oy ox F1 F2 G1 G2 H c y) a := by
+  unfold dmRenderPad dmBackPad
+  rw [pad2_crop2_adjoint conj m n M N oy ox hy0 hy1 hx0 hx1, ip2_scale conj m n c hcc,
+    filter2_adjoint' conj hc m n F1 F2 G1 G2 H _ _ c1 c2 h1 h2 hc1 hc2]
+  unfold scatter2 gather2
+  rw [adj_mapCols conj n ky m _ _ (scatter1_gather1_adjoint conj ky m loy sty hsy hly),
+    adj_mapRows conj ky kx n _ _ (scatter1_gather1_adjoint conj kx n lox stx hsx hlx)]
+
+include hc in
+/-- … and for the cropping geometry (`M ≤ m`, `N ≤ n`) -/
+theorem dm_crop_adjoint (ky kx loy sty lox stx m n M N : Nat) (oy ox : Int)
+    (hy0 : 0 ≤ oy) (hy1 : oy + M ≤ m) (hx0 : 0 ≤ ox) (hx1 : ox + N ≤ n)
+    (hsy : 0 < sty) (hsx : 0 < stx) (hly : loy + (ky - 1) * sty < m ∨ ky = 0) (hlx : lox + (kx - 1) * stx < n ∨ kx = 0)
+    (F1 F2 G1 G2 H : Mat C) (c1 c2 c : C)
+    (h1 : ∀ i j, G1 i j = c1 * conj (F1 j i)) (h2 : ∀ i j, G2 i j = c2 * conj (F2 j i))
+    (hc1 : conj c1 = c1) (hc2 : conj c2 = c2) (hcc : conj c = c) (a y : Mat C) :
+    ip2 conj M N y (dmRenderCrop ky kx loy sty lox stx m n oy ox F1 F2 G1 G2 H c a)
+      = ip2 conj ky kx (dmBackCrop conj loy sty lox stx m n M N oy ox F1 F2 G1 G2 H c y) a := by
+  unfold dmRenderCrop dmBackCrop
+  rw [crop2_pad2_adjoint conj hc M N m n oy ox hy0 hy1 hx0 hx1, ip2_scale conj m n c hcc,
+    filter2_adjoint' conj hc m n F1 F2 G1 G2 H _ _ c1 c2 h1 h2 hc1 hc2]
+  unfold scatter2 gather2
+  rw [adj_mapCols conj n ky m _ _ (scatter1_gather1_adjoint conj ky m loy sty hsy hly),
+    adj_mapRows conj ky kx n _ _ (scatter1_gather1_adjoint conj kx n lox stx hsx hlx)]
+end C06L
